@@ -68,6 +68,11 @@ func (f *RecFetcher) Set(k eval.VariableKey, s string, v eval.Value) error { ret
 
 func (f *RecFetcher) Cached(k eval.VariableKey, s string) bool {
 	f.Cachedq++
+	if f.Keys != nil {
+		if want, ok := f.Keys[s]; ok && want != k && f.KeyError == "" {
+			f.KeyError = fmt.Sprintf("Cached(%d,%q): registered key is %d", k, s, want)
+		}
+	}
 	if f.AvailHash {
 		return hashStr(s)%3 != 0
 	}
@@ -92,6 +97,14 @@ func copyVal(v interface{}) interface{} {
 		return append([]int64{}, x...)
 	case []string:
 		return append([]string{}, x...)
+	case []interface{}:
+		return append([]interface{}{}, x...)
+	case []eval.Value: // a tuple built by ctup: the engine's own argument slice
+		c := make([]interface{}, len(x))
+		for i, e := range x {
+			c[i] = e
+		}
+		return c
 	}
 	return v
 }
@@ -102,12 +115,21 @@ func copyVal(v interface{}) interface{} {
 func wrapCustom(op *CustomOp, cfgRec *Recorder) eval.Operator {
 	return func(ctx *eval.Ctx, params []eval.Value) (eval.Value, error) {
 		args := toIfaces(params)
+		atCall := argsText(args)
 		var res interface{}
 		var err error
 		if op.CtxFn != nil && ctx != nil {
 			res, err = op.CtxFn(ctx, args)
 		} else {
 			res, err = op.Fn(args)
+		}
+		if op.MutatesArgs {
+			for i := range args { // the operator worked on the slice the engine handed it
+				params[i] = args[i]
+			}
+		}
+		if op.ReturnsArgs && err == nil {
+			res = params // ... and keeps it as its result
 		}
 		// compile-time invocations (nil ctx) go to the config-level recorder; run-time
 		// invocations only to the per-call recorder of their own context (never to shared state)
@@ -127,7 +149,7 @@ func wrapCustom(op *CustomOp, cfgRec *Recorder) eval.Operator {
 			if err == nil {
 				r = valText(res)
 			}
-			rec.Effects = append(rec.Effects, Eff{Name: op.Name, Args: argsText(args), Res: r})
+			rec.Effects = append(rec.Effects, Eff{Name: op.Name, Args: atCall, Res: r})
 		}
 		return res, err
 	}
